@@ -728,7 +728,7 @@ class Fxp():
                 if not raw:
                     val, signed, n_word, n_frac = utils.str2num(val, self.signed, self.n_word, self.n_frac, return_sizes=True)
                 else:
-                    val, signed, n_word, _ = utils.str2num(val, self.signed, self.n_word, None, return_sizes=True)
+                    val, signed, n_word, _ = utils.str2num(val, self.signed, self.n_word, None, return_sizes=True, raw=True)
                     n_frac = self.n_frac
 
                 if raw:
@@ -743,7 +743,7 @@ class Fxp():
             if not raw:
                 val, signed, n_word, n_frac = utils.str2num(val, self.signed, self.n_word, self.n_frac, return_sizes=True)
             else:
-                val, signed, n_word, _ = utils.str2num(val, self.signed, self.n_word, None, return_sizes=True)
+                val, signed, n_word, _ = utils.str2num(val, self.signed, self.n_word, None, return_sizes=True, raw=True)
                 n_frac = self.n_frac
 
         elif isinstance(val, Decimal):
